@@ -121,6 +121,122 @@ fn semiring_laws<T: Semiring + PartialEq + Debug>(acc: &mut Acc, ty: &str, el: &
     acc.rep.states += el.len() as u64;
 }
 
+/// Gaussian integers and reals at the edge of exact f64 arithmetic (components up to 2^53): the laws are
+/// checked for exactly those operand tuples for which every product and sum of the defining formulas, computed
+/// in 128-bit integers, is itself exactly representable - the values are then "exactly representable values"
+/// in every reading, and a law that fails is a violation, not a rounding artefact
+fn large_magnitude_laws(acc: &mut Acc) {
+    fn ok(x: i128) -> bool {
+        x.abs() < (1i128 << 100) && (x as f64) as i128 == x
+    }
+    type G = (i128, i128);
+    fn mul(a: G, b: G) -> Option<G> {
+        let (p, q, r, s) = (a.0 * b.0, a.1 * b.1, a.0 * b.1, a.1 * b.0);
+        // also the intermediate of the three-multiplication form must not be what makes a product exact
+        if [p, q, r, s, p - q, r + s].iter().all(|&x| ok(x)) { Some((p - q, r + s)) } else { None }
+    }
+    fn add(a: G, b: G) -> Option<G> {
+        if ok(a.0 + b.0) && ok(a.1 + b.1) { Some((a.0 + b.0, a.1 + b.1)) } else { None }
+    }
+    let cxv = |g: G| Complex { re: g.0 as f64, im: g.1 as f64 };
+    let big: Vec<i128> = vec![0, 1, -1, 2, 3, 1 << 26, (1 << 26) + 1, 1 << 27, -(1 << 27), (1 << 27) + 2, 1 << 52, (1 << 53) - 1, 1 << 53, -(1 << 53)];
+    let mut el: Vec<G> = Vec::new();
+    for (i, &re) in big.iter().enumerate() {
+        for (j, &im) in big.iter().enumerate() {
+            if (i < 5 || j < 5) && (i >= 5 || j >= 5 || (i + j) % 3 == 0) {
+                el.push((re, im));
+            }
+        }
+    }
+    let one = Complex::one();
+    let zero = Complex::zero();
+    let ty = "Complex";
+    for &a in el.iter() {
+        let x = cxv(a);
+        acc.rep.evaluations += 4;
+        acc.rep.states += 1;
+        match eval2(|| (x * one, one * x, x * zero, x + zero)) {
+            Ok((l, r, z, s)) => {
+                if l != x || r != x {
+                    acc.fail(ty, "multiplicative-identity", format!("{:?} * 1 = {:?}, 1 * {:?} = {:?}", x, l, x, r));
+                }
+                if z != zero {
+                    acc.fail(ty, "annihilation", format!("{:?} * 0 = {:?}", x, z));
+                }
+                if s != x {
+                    acc.fail(ty, "additive-identity", format!("{:?} + 0 = {:?}", x, s));
+                }
+            }
+            Err(p) => acc.fail(ty, "multiplicative-identity", format!("{:?}: panic {}", x, p)),
+        }
+        for &b in el.iter() {
+            let y = cxv(b);
+            if let Some(ab) = mul(a, b) {
+                acc.rep.evaluations += 2;
+                acc.rep.transitions += 1;
+                match eval2(|| (x * y, y * x)) {
+                    Ok((l, r)) => {
+                        if l != r {
+                            acc.fail(ty, "mul-commutative", format!("{:?}, {:?}: {:?} != {:?}", x, y, l, r));
+                        }
+                    }
+                    Err(p) => acc.fail(ty, "mul-commutative", format!("{:?}, {:?}: panic {}", x, y, p)),
+                }
+                // associativity and distributivity with a small third operand
+                for c in [(0i128, 1i128), (0, -1), (1, 1), (2, -1)] {
+                    let z = cxv(c);
+                    if let (Some(bc), Some(abc)) = (mul(b, c), mul(ab, c)) {
+                        if mul(a, bc).is_some() {
+                            acc.rep.evaluations += 1;
+                            if let Ok((l, r)) = eval2(|| ((x * y) * z, x * (y * z))) {
+                                if l != r {
+                                    acc.fail(ty, "mul-associative", format!("{:?}, {:?}, {:?}: {:?} != {:?} (every intermediate value is exactly representable; exact arithmetic gives {:?})", x, y, z, l, r, cxv(abc)));
+                                }
+                            }
+                        }
+                    }
+                    if let Some(bpc) = add(b, c) {
+                        if let (Some(l1), Some(ac)) = (mul(a, bpc), mul(a, c)) {
+                            if add(ab, ac) == Some(l1) {
+                                acc.rep.evaluations += 1;
+                                if let Ok((l, r)) = eval2(|| (x * (y + z), (x * y) + (x * z))) {
+                                    if l != r {
+                                        acc.fail(ty, "left-distributive", format!("{:?}, {:?}, {:?}: {:?} != {:?} (every intermediate value is exactly representable; exact arithmetic gives {:?})", x, y, z, l, r, cxv(l1)));
+                                    }
+                                }
+                            }
+                        }
+                    }
+                }
+            }
+        }
+        if acc.rep.n_violations > 200 {
+            return;
+        }
+    }
+    // reals at the same magnitudes: identity and commutativity
+    for &a in big.iter() {
+        let x = RealSemiring(a as f64);
+        acc.rep.evaluations += 2;
+        if let Ok((p, q)) = eval2(|| ((x * RealSemiring::one()).0, (x + RealSemiring::zero()).0)) {
+            if p != x.0 || q != x.0 {
+                acc.fail("RealSemiring", "multiplicative-identity", format!("{}: times one {}, plus zero {}", a, p, q));
+            }
+        }
+        for &b in big.iter() {
+            if ok(a * b) && ok(a + b) {
+                acc.rep.evaluations += 2;
+                let y = RealSemiring(b as f64);
+                if let Ok((p, q, r, t)) = eval2(|| ((x * y).0, (y * x).0, (x + y).0, (y + x).0)) {
+                    if p != q || r != t {
+                        acc.fail("RealSemiring", "mul-commutative", format!("{} and {}: {} / {}, {} / {}", a, b, p, q, r, t));
+                    }
+                }
+            }
+        }
+    }
+}
+
 fn ring_laws<T: Semiring + std::ops::Sub<Output = T> + PartialEq + Debug>(acc: &mut Acc, ty: &str, el: &[T]) {
     for &a in el {
         for &b in el {
@@ -401,6 +517,7 @@ pub fn run(ctx: &Ctx) -> Report {
     }
     semiring_laws(&mut acc, "Complex", &cx, true);
     ring_laws(&mut acc, "Complex", &cx);
+    large_magnitude_laws(&mut acc);
     // Expected utility
     let mut eu = Vec::new();
     for p in [0.0, 1.0, 0.5, 2.0] {
